@@ -13,6 +13,8 @@ from .observe import graph_json
 def arrays_of(cls, obj):
     if cls == 'graph':
         return []
+    if cls == 'vec':            # plain arrays handed to a constructor by the user (from_vector input, operator map)
+        return list(obj)
     out = list(obj.A) + [obj.qd] + list(obj.qD)
     return [a for a in out if isinstance(a, np.ndarray)]
 
@@ -22,7 +24,7 @@ def digest(cls, obj):
     if cls == 'graph':
         h.update(repr(graph_json(obj)).encode())
         return h.hexdigest()[:16]
-    for a in list(obj.A) + [obj.qd] + list(obj.qD):
+    for a in (list(obj) if cls == 'vec' else list(obj.A) + [obj.qd] + list(obj.qD)):
         if isinstance(a, np.ndarray):
             h.update(str(a.dtype).encode() + str(a.shape).encode() + np.ascontiguousarray(a).tobytes())
         else:
@@ -63,7 +65,8 @@ def sharing_pairs(pool):
                         out.append([names[x], names[y]])
                 continue
             ax, ay = arrays_of(cx, ox), arrays_of(cy, oy)
-            if any(np.shares_memory(a, b) for a in ax for b in ay) or (ox.A is oy.A) or (ox.qD is oy.qD):
+            if any(np.shares_memory(a, b) for a in ax for b in ay) or \
+                    (cx != 'vec' and cy != 'vec' and ((ox.A is oy.A) or (ox.qD is oy.qD))):
                 out.append([names[x], names[y]])
     return out
 
@@ -112,13 +115,18 @@ def poke(pool, name):
 
 # ------------------------------------------------------------------------------------------------- histories
 def run_history(ptn, seed, quick, want_graphs=True):
-    """returns (c02 trace, c19 trace)"""
+    """returns (c02 trace, c19 trace).  One history in seven is focused on MPS.from_vector (all-zero physical charges, short
+    chains incl. a single site, the input vector kept alive as an object of the pool)."""
     rng = np.random.default_rng(seed)
     t02, t19 = [], []
     pool = {}
     nid = [0]
-    fam_model = rng.random() < 0.6
+    focus_fv = (seed % 7 == 3)
+    focus_graph = (seed % 7 == 5) and want_graphs          # one history in seven is focused on operator graphs (from_opchains / add / to MPO)
+    fam_model = rng.random() < 0.6 and not focus_fv
     L = int(rng.integers(1, 5 if fam_model else 4))
+    if focus_fv:
+        L = int(rng.choice([1, 1, 2, 3]))
     try:
         if fam_model:
             kind = str(rng.choice(['xxz', 'xxz', 'bose', 'fermi_hubbard', 'ising', 'complex']))
@@ -126,9 +134,11 @@ def run_history(ptn, seed, quick, want_graphs=True):
                 L = min(L, 3)
             H = sweepgen.make_hamiltonian(ptn, rng, L, kind)
             qd = [int(x) for x in H.qd]
+            if rng.random() < 0.3 and all(not np.any(np.imag(a)) for a in H.A):
+                H.A = [np.ascontiguousarray(np.real(a)) for a in H.A]        # a real-valued Hamiltonian (float64 tensors)
         else:
             kind = 'generic'
-            style = str(rng.choice(['u1', 'u1', 'zero', 'pair', 'repeated']))
+            style = 'zero' if focus_fv else str(rng.choice(['u1', 'u1', 'zero', 'pair', 'repeated']))
             qd, _ = canon.gen_charges(rng, L, int(rng.integers(1, 4)), 'mps', style)
             H = None
     except BaseException as ex:  # noqa
@@ -156,8 +166,8 @@ def run_history(ptn, seed, quick, want_graphs=True):
     def observe(name, kind_, target, created, operands, fn):
         """run fn() (the real call) and append the C02 / C19 records"""
         before = {k: digest(c, o) for k, (c, o) in pool.items()}
-        bq = {k: (list(np.asarray(o.qD[0]).reshape(-1)[:1]), list(np.asarray(o.qD[-1]).reshape(-1)[:1])) for k, (c, o) in pool.items() if c != 'graph'}
-        bz = {k: (not np.any(o.as_vector() if c == 'mps' else o.as_matrix())) for k, (c, o) in pool.items() if c != 'graph'}
+        bq = {k: (list(np.asarray(o.qD[0]).reshape(-1)[:1]), list(np.asarray(o.qD[-1]).reshape(-1)[:1])) for k, (c, o) in pool.items() if c not in ('graph', 'vec')}
+        bz = {k: (not np.any(o.as_vector() if c == 'mps' else o.as_matrix())) for k, (c, o) in pool.items() if c not in ('graph', 'vec')}
         try:
             with warnings.catch_warnings():
                 warnings.simplefilter('ignore')
@@ -168,13 +178,14 @@ def run_history(ptn, seed, quick, want_graphs=True):
             t19.append(rec)
             return None
         changed = sorted(k for k in before if k in pool and digest(*pool[k]) != before[k])
-        objs = [project(k, c, o) for k, (c, o) in sorted(pool.items()) if c != 'graph']
+        objs = [project(k, c, o) for k, (c, o) in sorted(pool.items()) if c not in ('graph', 'vec')]
         bfix = True
         if kind_ == 'inplace' and target in bq and not bz.get(target, False):
             c, o = pool[target]
             bfix = (list(np.asarray(o.qD[0]).reshape(-1)[:1]) == bq[target][0]) and (list(np.asarray(o.qD[-1]).reshape(-1)[:1]) == bq[target][1])
-        if pool.get(target, ('', None))[0] == 'graph' or name.startswith('OpGraph.'):
-            rule = 'graph'
+        if pool.get(target, ('', None))[0] in ('graph', 'vec') or pool.get(newname, ('', None))[0] in ('graph', 'vec') \
+                or name.startswith('OpGraph.') or name.startswith('numpy'):
+            rule = 'graph'              # objects outside the C02 projection (operator graphs, plain arrays)
         elif kind_ == 'inplace':
             rule = 'inplace'
         elif kind_ == 'pure':
@@ -183,7 +194,7 @@ def run_history(ptn, seed, quick, want_graphs=True):
             rule = {'mps+': 'add', 'mps-': 'add', 'mpo+-': 'add', 'mpo@': 'mul', 'apply_operator': 'apply',
                     'MPS.from_vector': 'from_vector'}.get(name, 'create')
         t02.append(dict(ev='op', name=name, kind=kind_, rule=rule, target=int(target or 0), created=int(newname or 0),
-                        operands=[int(x) for x in operands], objs=objs, boundary_fixed=bool(bfix)))
+                        operands=[int(x) for x in operands if pool.get(x, ('', None))[0] != 'vec'], objs=objs, boundary_fixed=bool(bfix)))
         t19.append(dict(ev='call', name=name, kind=kind_, target=int(target or 0), created=int(newname or 0), operands=[int(x) for x in operands],
                         changed=[int(x) for x in changed], sharing=sharing_pairs(pool)))
         if newname and kind_ == 'fresh':
@@ -197,6 +208,13 @@ def run_history(ptn, seed, quick, want_graphs=True):
         observe(f'{kind}_mpo', 'fresh', None, True, [], lambda: add_obj('mpo', H))
     else:
         observe('MPO()', 'fresh', None, True, [], lambda: add_obj('mpo', new_op()))
+    if focus_graph:
+        for _ in range(2):
+            def mk0():
+                chains = [ptn.OpChain([int(rng.integers(0, 3)) for _ in range(n)], [0] * (n + 1), float(rng.integers(1, 4)), int(rng.integers(0, L - n + 1)))
+                          for n in [int(rng.integers(1, L + 1)) for _ in range(int(rng.integers(1, 4)))]]
+                return ptn.OpGraph.from_opchains(chains, L, 0)
+            observe('OpGraph.from_opchains', 'fresh', None, True, [], lambda: add_obj('graph', mk0()))
     nops = int(rng.integers(4, 9 if quick else 13))
     for _ in range(nops):
         if t02 and t02[-1].get('ev') == 'raise':
@@ -211,6 +229,11 @@ def run_history(ptn, seed, quick, want_graphs=True):
             ops += ['tdvp1', 'tdvp2', 'dmrg1', 'dmrg2', 'tdvp1', 'dmrg1']
         if all(q == 0 for q in qd):
             ops += ['from_vector']
+        if focus_fv:
+            ops = ['from_vector', 'from_vector', 'from_vector', 'ortho', 'compress', 'add', 'dense', 'norm', 'vdot', 'pokevec']
+        if focus_graph:
+            ops = ['graph', 'graph', 'graph', 'graph', 'dense', 'mul', 'addop', 'ortho']
+        vecs = [k for k, (c, o) in pool.items() if c == 'vec']
         if want_graphs:
             ops += ['graph']
         op = str(rng.choice(ops))
@@ -263,7 +286,41 @@ def run_history(ptn, seed, quick, want_graphs=True):
                 Am = ptn.merge_mps_tensor_pair(psi.A[i], psi.A[i + 1])
                 ptn.split_mps_tensor(Am, psi.qd, psi.qd, [psi.qD[i], psi.qD[i + 2]], str(rng.choice(['left', 'right', 'sqrt'])), tol=0.0)
             observe('merge/split_mps_tensor', 'pure', None, None, [a], f)
+        elif op == 'pokevec' and vecs:
+            # the user reuses (overwrites) an array that was handed to a constructor earlier
+            vname = int(rng.choice(vecs))
+
+            def f():
+                for arr in pool[vname][1]:
+                    arr *= 0.5
+                    arr += 0.25
+            observe('numpy in-place update of an input array', 'inplace', vname, None, [], f)
         elif op == 'from_vector':
+            vbox = []
+
+            def mkv():
+                d_ = len(qd)
+                k = int(rng.integers(0, 3))
+                if k == 0:
+                    v = rng.normal(size=d_**L) + (1j * rng.normal(size=d_**L) if rng.random() < 0.5 else 0)
+                elif k == 1:
+                    v = np.zeros(d_**L)
+                    v[0] = 1.0
+                    v[-1] = 2.0
+                else:
+                    v = np.ones(1)
+                    for _ in range(L):
+                        v = np.kron(v, rng.normal(size=d_))
+                    v = v + 1e-3 * rng.normal(size=d_**L)
+                vbox.append(np.ascontiguousarray(v))
+                return add_obj('vec', [vbox[0]])
+            if focus_fv or rng.random() < 0.5:
+                vid = observe('numpy vector', 'fresh', None, True, [], mkv)
+                if vid:
+                    observe('MPS.from_vector', 'fresh', None, True, [vid],
+                            lambda: add_obj('mps', ptn.MPS.from_vector(len(qd), L, vbox[0], tol=float(rng.choice([0.0, 0.0, 1e-2, 1e-4])))))
+                continue
+
             def f():
                 d_ = len(qd)
                 k = int(rng.integers(0, 3))
@@ -305,14 +362,31 @@ def run_history(ptn, seed, quick, want_graphs=True):
                 return ptn.OpGraph.from_opchains(chains, L, 0)
             if graphs and rng.random() < 0.6:
                 g1 = int(rng.choice(graphs))
-                if rng.random() < 0.5:
-                    g2 = int(rng.choice(graphs))
-                    if g2 != g1:
+                if rng.random() < 0.5 and len(graphs) >= 2:
+                    g2 = int(rng.choice([g for g in graphs if g != g1]))
+                    if g2 != g1 and rng.random() < 0.5:
+                        # the other graph numbered completely disjointly (ids shifted by the user through the public rename calls)
+                        import copy
+
+                        def shifted():
+                            h = copy.deepcopy(pool[g2][1])
+                            off = 1000 + max([0] + list(pool[g1][1].nodes) + list(pool[g1][1].edges) + list(h.nodes) + list(h.edges))
+                            for n_ in sorted(h.nodes, reverse=True):
+                                h.rename_node_id(n_, n_ + off)
+                            for e_ in sorted(h.edges, reverse=True):
+                                h.rename_edge_id(e_, e_ + off)
+                            return add_obj('graph', h)
+                        g3 = observe('OpGraph copy with shifted ids', 'fresh', None, True, [], shifted)
+                        if g3:
+                            observe('OpGraph.add', 'inplace', g1, None, [g3], lambda: pool[g1][1].add(pool[g3][1]) and None)
+                    elif g2 != g1:
                         observe('OpGraph.add', 'inplace', g1, None, [g2], lambda: pool[g1][1].add(pool[g2][1]) and None)
                 else:
                     opmap = {i: rng.normal(size=(len(qd), len(qd))) * np.equal.outer(np.array(qd), np.array(qd)) for i in range(3)}
                     opmap[0] = np.eye(len(qd))
-                    observe('MPO.from_opgraph', 'fresh', None, True, [g1], lambda: add_obj('mpo', ptn.MPO.from_opgraph(qd, pool[g1][1], opmap)))
+                    vm = observe('numpy operator map', 'fresh', None, True, [], lambda: add_obj('vec', list(opmap.values())))
+                    observe('MPO.from_opgraph', 'fresh', None, True, [g1] + ([vm] if vm else []),
+                            lambda: add_obj('mpo', ptn.MPO.from_opgraph(qd, pool[g1][1], opmap)))
             else:
                 observe('OpGraph.from_opchains', 'fresh', None, True, [], lambda: add_obj('graph', mk()))
     return t02, t19
